@@ -218,6 +218,7 @@ pub fn plan_to_json(p: &Plan) -> Value {
         "fresh_wakers": p.fresh_wakers,
         "ready_pm": p.ready_pm,
         "ready_seed": p.ready_seed.to_string(),
+        "yield_pm": p.yield_pm,
     })
 }
 
@@ -257,6 +258,7 @@ pub fn plan_from_json(v: &Value) -> Plan {
     p.fresh_wakers = v["fresh_wakers"].as_bool().unwrap_or(false);
     p.ready_pm = v["ready_pm"].as_u64().unwrap_or(0) as u32;
     p.ready_seed = v["ready_seed"].as_str().and_then(|x| x.parse().ok()).unwrap_or(0);
+    p.yield_pm = v["yield_pm"].as_u64().unwrap_or(0) as u32;
     if let Some(a) = v["stuck"].as_array() {
         for x in a {
             p.stuck.insert((x[0].as_u64().unwrap_or(0) as u32, x[1].as_u64().unwrap_or(0) as u32));
@@ -516,6 +518,9 @@ fn record_stats(st: &mut Stats, prog: &Prog, kind: Kind, plan: &Plan, strat: Str
     if ev.obs.ready_now > 0 {
         Stats::bump(f, "F-ready", ev.obs.ready_now);
     }
+    if ev.obs.yields > 0 {
+        Stats::bump(f, "F-yield", ev.obs.yields);
+    }
     if ev.obs.stale_wakes > 0 {
         Stats::bump(&mut st.probes, "wake_through_stale_waker_ignored", ev.obs.stale_wakes);
     }
@@ -661,10 +666,16 @@ fn plans_for(mode: PlanMode, check: &str, prog: &Prog, kind: Kind, b: Budget, se
                 }
                 if threads {
                     p.caller = if mode == PlanMode::Thread {
-                        match i % 3 {
+                        // C08 / C17: main, unnamed, and the whole menu of unusual names in turn
+                        match i % 4 {
                             0 => CallerName::Main,
-                            1 => CallerName::Named("w-7".into()),
-                            _ => CallerName::Unnamed,
+                            1 => CallerName::Unnamed,
+                            _ => loop {
+                                let c = plans::random_caller(&mut rng);
+                                if c != CallerName::Main && c != CallerName::Unnamed {
+                                    break c;
+                                }
+                            },
                         }
                     } else {
                         plans::random_caller(&mut rng)
@@ -830,7 +841,15 @@ fn plans_for(mode: PlanMode, check: &str, prog: &Prog, kind: Kind, b: Budget, se
                 2 => p.ready_pm = 200,
                 _ => {}
             }
-            if p.ready_pm > 0 {
+            // F-yield: in a quarter of the async plans 15 % / 50 % / all of the (remaining) gate futures wake themselves inside
+            // their first poll and are complete at the next one (combined with F-ready or alone)
+            match rng.below(12) {
+                0 => p.yield_pm = 1000,
+                1 => p.yield_pm = 500,
+                2 => p.yield_pm = 150,
+                _ => {}
+            }
+            if p.ready_pm > 0 || p.yield_pm > 0 {
                 p.ready_seed = rng.next();
             }
         }
@@ -923,6 +942,11 @@ pub fn minimise(check: &str, prog: &Prog, f: &mut Failure) -> (Eval, u32) {
     if f.plan.ready_pm != 0 {
         let mut c = f.plan.clone();
         c.ready_pm = 0;
+        try_plan!(c);
+    }
+    if f.plan.yield_pm != 0 {
+        let mut c = f.plan.clone();
+        c.yield_pm = 0;
         try_plan!(c);
     }
     if f.plan.input_seed != 0 {
